@@ -221,7 +221,7 @@ def entryOf (p : Prog) (sc : Scenario) : Res → String
   | .ok => "nil"
 
 /-- **C08 for Parallel (ContinueOnError).** When the loop has left its `for` with every job of the
-    directive enqueued and no cancellation:
+    directive enqueued and no cancellation of any job's context (`Wait`'s own context does not matter):
     (a) every job without dependencies — every task, every slice element, every map entry (and the
         End function of an empty or nil collection) — was started exactly once, whatever else
         failed;
@@ -233,7 +233,7 @@ def entryOf (p : Prog) (sc : Scenario) : Res → String
 theorem C08_par_errors (p : Prog) (sc : Scenario) (c : Cfg) (hc : ParCfg p c) (hcoe : c.coe = true)
     (acts : List Act) (s : State) (hr : run c (init c) acts = some s)
     (hp : s.loop.phase ≠ .select) (hall : s.caller.sent = (parJobs p).length)
-    (hnc : Ev.cancelled ∉ s.log) (hcons : Consistent p sc s.log) :
+    (hnc : ∀ j, Ev.cancelled (c.ctxOfJob j) ∉ s.log) (hcons : Consistent p sc s.log) :
     (∀ j job, (parJobs p)[j]? = some job → job.deps = [] → s.log.count (Ev.started j) = 1) ∧
     (∃ seen : List Nat, s.loop.err = seen.map Res.fail ∧ seen.Perm (failedIds s.log) ∧
       ∀ j ∈ seen, Ev.ended j (.fail j) ∈ s.log ∧ pOut sc (jobBody p j) ≠ .ok ∧
@@ -250,7 +250,7 @@ theorem C08_par_errors (p : Prog) (sc : Scenario) (c : Cfg) (hc : ParCfg p c) (h
   · intro j job hj hd
     have hlt : j < s.caller.sent := by rw [hall]; exact (List.getElem?_eq_some_iff.mp hj).1
     have hst := C08_runnable_ran c hc.wiring hwf hcoe acts s hr hp j hlt
-      (by rw [hc.depsOf hj, hd]; simp) hnc
+      (by rw [hc.depsOf hj, hd]; simp) (hnc _)
     have h1 := C01_at_most_once c hc.wiring hwf acts s hr j
     have h2 : 0 < s.log.count (Ev.started j) := List.count_pos_iff.mpr hst
     omega
@@ -273,7 +273,7 @@ theorem C08_par_errors (p : Prog) (sc : Scenario) (c : Cfg) (hc : ParCfg p c) (h
 theorem C08_par_end_iff (p : Prog) (sc : Scenario) (c : Cfg) (hc : ParCfg p c) (hcoe : c.coe = true)
     (acts : List Act) (s : State) (hr : run c (init c) acts = some s)
     (hp : s.loop.phase ≠ .select) (hall : s.caller.sent = (parJobs p).length)
-    (hnc : Ev.cancelled ∉ s.log) (hcons : Consistent p sc s.log)
+    (hnc : ∀ j, Ev.cancelled (c.ctxOfJob j) ∉ s.log) (hcons : Consistent p sc s.log)
     (kd : CollKind) (col : Coll) (base : Nat) (hat : CollAt p kd col base) (hend : col.hasEnd = true) :
     Ev.started (base + collN col) ∈ s.log ↔ ∀ x, x < collN col → pOut sc (elemBody kd col x) = .ok := by
   have hwf := wf_parCfg hc
@@ -285,7 +285,7 @@ theorem C08_par_end_iff (p : Prog) (sc : Scenario) (c : Cfg) (hc : ParCfg p c) (
   · intro hok
     have hlt : base + collN col < s.caller.sent := by
       rw [hall]; exact (List.getElem?_eq_some_iff.mp (hat.endJob hend)).1
-    apply C08_runnable_ran c hc.wiring hwf hcoe acts s hr hp _ hlt _ hnc
+    apply C08_runnable_ran c hc.wiring hwf hcoe acts s hr hp _ hlt _ (hnc _)
     intro d hd
     rw [hc.depsOf (hat.endJob hend)] at hd
     simp only [List.mem_map, List.mem_range] at hd
@@ -306,7 +306,7 @@ theorem C08_par_end_iff (p : Prog) (sc : Scenario) (c : Cfg) (hc : ParCfg p c) (
 theorem C08_par_functions_called (p : Prog) (sc : Scenario) (c : Cfg) (hc : ParCfg p c) (hcoe : c.coe = true)
     (acts : List Act) (s : State) (hr : run c (init c) acts = some s)
     (hp : s.loop.phase ≠ .select) (hall : s.caller.sent = (parJobs p).length)
-    (hnc : Ev.cancelled ∉ s.log) (hcons : Consistent p sc s.log) :
+    (hnc : ∀ j, Ev.cancelled (c.ctxOfJob j) ∉ s.log) (hcons : Consistent p sc s.log) :
     (∀ pos t, p.ptasks[pos]? = some t →
       s.log.count (Ev.started pos) = 1 ∧ s!"call {t.k}" ∈ callsOf p sc s.log) ∧
     (∀ kd col base, CollAt p kd col base → ∀ x, x < collN col →
@@ -338,7 +338,7 @@ def toBeCalled (p : Prog) (sc : Scenario) (j : Nat) : Bool :=
 theorem C08_par_ideal (p : Prog) (sc : Scenario) (c : Cfg) (hc : ParCfg p c) (hcoe : c.coe = true)
     (acts : List Act) (s : State) (hr : run c (init c) acts = some s)
     (hp : s.loop.phase ≠ .select) (hall : s.caller.sent = (parJobs p).length)
-    (hnc : Ev.cancelled ∉ s.log) (hcons : Consistent p sc s.log) :
+    (hnc : ∀ j, Ev.cancelled (c.ctxOfJob j) ∉ s.log) (hcons : Consistent p sc s.log) :
     (endedIds s.log).Perm ((List.range (parJobs p).length).filter (toBeCalled p sc)) ∧
     (callsOf p sc s.log).Perm
       (((List.range (parJobs p).length).filter (toBeCalled p sc)).map fun j => pCall p (jobBody p j)) ∧
@@ -377,7 +377,7 @@ theorem C08_par_ideal (p : Prog) (sc : Scenario) (c : Cfg) (hc : ParCfg p c) (hc
       unfold toBeCalled at htc
       rw [getD_eq j _ hj, List.all_eq_true] at htc
       have hst : Ev.started j ∈ s.log := by
-        apply C08_runnable_ran c hc.wiring hwf hcoe acts s hr hp j (by rw [hall]; exact hlt) _ hnc
+        apply C08_runnable_ran c hc.wiring hwf hcoe acts s hr hp j (by rw [hall]; exact hlt) _ (hnc _)
         intro d hd
         rw [hc.depsOf hj] at hd
         obtain ⟨jd, hjd, hnd⟩ := parJobs_deps_nodeps p j _ hj d hd
@@ -422,13 +422,13 @@ theorem C08_par_ideal (p : Prog) (sc : Scenario) (c : Cfg) (hc : ParCfg p c) (hc
 
 /-! ### C07 — fail-fast error -/
 
-/-- **C07 for Parallel (fail-fast).** Whatever `Wait` returns is nil, or the context's error after
-    a cancellation, or exactly one entry: the own error (or `PanicError`) of one function that was
+/-- **C07 for Parallel (fail-fast).** Whatever `Wait` returns is nil, or a context's error after
+    a cancellation (of some context: generated code uses one context throughout), or exactly one entry: the own error (or `PanicError`) of one function that was
     called and does not return nil in the scenario — all of whose dependencies had returned nil. -/
 theorem C07_par_error (p : Prog) (sc : Scenario) (c : Cfg) (hc : ParCfg p c) (hff : c.coe = false)
     (acts : List Act) (s : State) (hr : run c (init c) acts = some s) (hcons : Consistent p sc s.log)
     (r : List Res) (hret : Ev.waitReturned r ∈ s.log) :
-    r = [] ∨ (r = [.ctxErr] ∧ Ev.cancelled ∈ s.log) ∨
+    r = [] ∨ (r = [.ctxErr] ∧ ∃ x, Ev.cancelled x ∈ s.log) ∨
     ∃ j, r = [.fail j] ∧ Ev.ended j (.fail j) ∈ s.log ∧ pOut sc (jobBody p j) ≠ .ok ∧
       (jobRes p sc j).ret = some (entryOf p sc (.fail j)) ∧
       ∀ d ∈ c.depsOf j, pOut sc (jobBody p d) = .ok := by
@@ -436,7 +436,9 @@ theorem C07_par_error (p : Prog) (sc : Scenario) (c : Cfg) (hc : ParCfg p c) (hf
   rcases C07_error_real c hc.wiring hwf hff acts s hr r hret with h | ⟨x, rfl, hx⟩
   · exact Or.inl h
   · rcases hx with ⟨rfl, hcan⟩ | ⟨j, e, rfl, he⟩ | ⟨rfl, j, he⟩
-    · exact Or.inr (Or.inl ⟨rfl, hcan⟩)
+    · rcases hcan with hcan | ⟨_, _, hcan⟩
+      · exact Or.inr (Or.inl ⟨rfl, _, hcan⟩)
+      · exact Or.inr (Or.inl ⟨rfl, _, hcan⟩)
     · obtain ⟨h1, h2⟩ := consistent_fail hcons he (by simp)
       simp at h1; subst h1
       refine Or.inr (Or.inr ⟨e, rfl, he, h2, ?_, ?_⟩)
